@@ -32,6 +32,7 @@ package main
 // into the raw-object cache, which would hide the offset-cache path from the later requests.
 
 import (
+	"bytes"
 	"context"
 	"encoding/base64"
 	"encoding/hex"
@@ -53,6 +54,7 @@ import (
 	"github.com/ipfs/go-cid"
 	"github.com/mr-tron/base58"
 	hugecache "github.com/rpcpool/yellowstone-faithful/huge-cache"
+	"github.com/rpcpool/yellowstone-faithful/indexes"
 	old_faithful_grpc "github.com/rpcpool/yellowstone-faithful/old-faithful-proto/old-faithful-grpc"
 	"github.com/rpcpool/yellowstone-faithful/third_party/solana_proto/confirmed_block"
 	"github.com/rpcpool/yellowstone-faithful/tooling"
@@ -74,7 +76,16 @@ type c02Case struct {
 	twin   bool // a further epoch (number = last + 1) built by c02GenTwin from the multi-frame transactions of the FIRST epoch: the two share objects
 	specs  []genOpts
 	skip1  bool // epoch 0: first block at slot 0, second block at slot >= 2 (boundary of the same-epoch parent test)
+	// collide: two epochs, the FIRST spec being the later one: it is generated and indexed first, then the first two
+	// transactions of the second (earlier) epoch are re-signed until the later epoch's sig-to-cid index answers their
+	// signatures (a 24-bit hash collision across epochs): only the sig-exists filter keeps the epoch search from
+	// stopping at the wrong epoch
+	collide bool
 }
+
+type c02MemFile struct{ *bytes.Reader }
+
+func (c02MemFile) Close() error { return nil }
 
 func c02SpecString(specs []genOpts) string {
 	var p []string
@@ -99,14 +110,17 @@ func c02ParseSpecs(s string) []genOpts {
 }
 
 func (c c02Case) line() string {
-	sh, sk := 0, 0
+	sh, sk, co := 0, 0, 0
 	if c.twin {
 		sh = 1
 	}
 	if c.skip1 {
 		sk = 1
 	}
-	return fmt.Sprintf("case %s seed=%d twin=%d skip1=%d epochs=%s", c.name, c.seed, sh, sk, c02SpecString(c.specs))
+	if c.collide {
+		co = 1
+	}
+	return fmt.Sprintf("case %s seed=%d twin=%d skip1=%d collide=%d epochs=%s", c.name, c.seed, sh, sk, co, c02SpecString(c.specs))
 }
 
 func c02ParseCase(line string) (c02Case, bool) {
@@ -124,6 +138,8 @@ func c02ParseCase(line string) (c02Case, bool) {
 			c.twin = v == "1"
 		case "skip1":
 			c.skip1 = v == "1"
+		case "collide":
+			c.collide = v == "1"
 		case "epochs":
 			c.specs = c02ParseSpecs(v)
 		}
@@ -150,6 +166,8 @@ func c02Cases(rng *zz.RNG, thorough bool) []c02Case {
 	cs = append(cs, c02Case{name: "shared-frames", seed: rng.U64(), twin: true, specs: []genOpts{mk(10, 10, 3, 30, 100, 0, 0)}})
 	// directed: epoch 0 whose second block skips slot 1 (parent = slot 0)
 	cs = append(cs, c02Case{name: "epoch0-skip1", seed: rng.U64(), skip1: true, specs: []genOpts{mk(0, 5, 2, 50, 30, 0, 0)}})
+	// directed: a signature of the earlier epoch that the later epoch's sig-to-cid index answers (cross-epoch hash collision)
+	cs = append(cs, c02Case{name: "sig-collision", seed: rng.U64(), collide: true, specs: []genOpts{mk(21, 30, 5, 30, 25, 0, 0), mk(19, 8, 3, 30, 25, 0, 0)}})
 	// model validation only: an epoch that starts mid-epoch (the parent of its first block is in the same epoch but not archived)
 	po := mk(123, 6, 3, 30, 30, 0, 0)
 	po.FirstSlotAt = 100000
@@ -195,8 +213,32 @@ func c02Generate(c c02Case, dir string) ([]*gEpoch, int, error) {
 		sub := zz.NewRNG(master.U64())
 		var ges []*gEpoch
 		ok := true
-		for _, o := range c.specs {
+		specs := append([]genOpts{}, c.specs...)
+		for oi, o := range specs {
 			ge := genEpoch(sub, dir, o)
+			if c.collide && oi == 0 && len(specs) > 1 {
+				pre := filepath.Join(dir, fmt.Sprintf("pre-%d", try))
+				le, err := buildIndexes(ge, pre, false)
+				if err != nil {
+					return nil, try, fmt.Errorf("collide: %w", err)
+				}
+				raw, err := os.ReadFile(le.Paths.SignatureToCid)
+				os.RemoveAll(pre)
+				if err != nil {
+					return nil, try, err
+				}
+				rd, err := indexes.OpenWithReader_SigToCid(c02MemFile{bytes.NewReader(raw)})
+				if err != nil {
+					return nil, try, fmt.Errorf("collide: %w", err)
+				}
+				specs[1].SigAccept = func(sig []byte) bool {
+					var sg solana.Signature
+					copy(sg[:], sig)
+					_, err := rd.Get(sg)
+					return err == nil
+				}
+				specs[1].SigAcceptN = 2
+			}
 			if c02DupWithin(ge) {
 				ok = false
 				break
